@@ -108,7 +108,7 @@ def check_cfg(ctx, fx, cfg):
             sites = [s.get("in") or s.get("param_of") for s in ent["sites"]]
             ctx.require(all(s in ctors for s in sites) and sites, "R05.6", "%s@%s" % (key, cfg), "a submit closure is created outside the channel constructors: %s" % [s for s in sites if s not in ctors], site=ent["sites"][0]["loc"] if ent["sites"] else None, detail=sites)
     # R05.7 closed mailbox -> graceful exit
-    run_loops(ctx, fx, "R05.7", {"L9", "L11", "L4"})
+    run_loops(ctx, fx, "R05.7", {"L9", "L11", "L4", "L13"})
     # R05.8 every strong kind owns a mailbox sender
     for k in own.STRONG_KINDS:
         o = fx.owns_of(k, "adt")
